@@ -357,6 +357,27 @@ def rule_refuse_unknown(repo, col):
               'ErrorProfile.state.setter', 'refuse-unknown-kind', f,
               'raise guarded by `not in self._state`',
               'no refusal of unknown error kinds')
+    # what is tested is what is stored: the reaction checked against
+    # _valid_states is the very value written into the profile (a test of
+    # a normalised spelling lets 'Raise' through, and the dispatch table has
+    # no such key)
+    checked = [n.test.left for n in body_walk(f) if isinstance(n, ast.If)
+               and isinstance(n.test, ast.Compare) and isinstance(
+               n.test.ops[0], ast.NotIn) and dotted(
+               n.test.comparators[0]) == 'self._valid_states']
+    stored = [n.value for n in body_walk(f) if isinstance(n, ast.Assign)
+              and isinstance(n.targets[0], ast.Subscript) and
+              dotted(n.targets[0].value) == 'self._state']
+    if checked and stored:
+        same = all(any(unparse(c, 200) == unparse(v, 200) for c in checked)
+                   for v in stored)
+        col.check(same, rule, ERR, 'ErrorProfile.state.setter',
+                  'checked-is-stored', stored[0],
+                  'the value tested is the value stored',
+                  '`%s` is tested against _valid_states but `%s` is stored: '
+                  'a reaction that only passes in its normalised spelling '
+                  'is accepted and later fails in the dispatch'
+                  % (unparse(checked[0], 50), unparse(stored[0], 50)))
 
 
 # --------------------------------------------------------------------------
